@@ -287,12 +287,21 @@ def refactor_corpus(pid):
     try:
         subprocess.check_call(['rsync', '-a', '--exclude', '/target', '--exclude', '/.git', '--exclude', 'test_snapshots', repo.rstrip('/') + '/', sc + '/repo/'])
         os.makedirs(sc + '/ev')
+        rel = []
         for patch in sorted(glob.glob(os.path.join(VERIF, 'selftest', 'refactors', '*.diff')) + glob.glob(os.path.join(VERIF, 'selftest', 'features', '*.diff'))):
-            name = os.path.basename(patch)[:-5]
             touched = [l.split()[1] for l in open(patch) if l.startswith('+++ ')]
             touched = [t.split('/', 1)[1] if '/' in t else t for t in touched]
-            if not any(t.startswith(d) and pid in ps for t in touched for d, ps in REL_DIRS.items()):
-                continue
+            if any(t.startswith(d) and pid in ps for t in touched for d, ps in REL_DIRS.items()):
+                rel.append(patch)
+        # the whole corpus is what selftest/run_refactors.py / run_features.py run (all 18 checks on every diff); one thorough run takes a
+        # deterministic, evenly spread sample of the diffs relevant to its property so that it stays within minutes
+        cap = int(os.environ.get('VERIF_THOROUGH_MAX_DIFFS', '60'))
+        n_rel = len(rel)
+        if n_rel > cap:
+            off = int(os.environ.get('VERIF_SEED', '1') or 1) % max(1, n_rel // cap)
+            rel = [rel[(i * n_rel) // cap + off if (i * n_rel) // cap + off < n_rel else (i * n_rel) // cap] for i in range(cap)]
+        for patch in rel:
+            name = os.path.basename(patch)[:-5]
             pr = subprocess.run(['patch', '-p1', '-s', '-i', patch], cwd=sc + '/repo', stdin=subprocess.DEVNULL, stdout=subprocess.PIPE, stderr=subprocess.STDOUT)
             try:
                 if pr.returncode:
@@ -307,7 +316,7 @@ def refactor_corpus(pid):
                 subprocess.run(['rsync', '-a', '--delete', '--exclude', '/target', '--exclude', '/.git', '--exclude', 'test_snapshots', repo.rstrip('/') + '/', sc + '/repo/'])
     finally:
         shutil.rmtree(sc, ignore_errors=True)
-    return dict(total=len(res), silent=sum(1 for x in res if x['status'] == 'SILENT-AS-REQUIRED'),
+    return dict(total=len(res), relevant_in_corpus=n_rel, silent=sum(1 for x in res if x['status'] == 'SILENT-AS-REQUIRED'),
                 problems=[x for x in res if x['status'].startswith(('FALSE-ALARM', 'INFRA'))], results=res)
 
 
